@@ -1178,6 +1178,30 @@ class Compiler:
             template("get = econtext.get") + \
             self.visit(node.node)
 
+    def _wrap_in_error_handler(self, nodes):
+        """Record the position of the failing expression and re-raise."""
+
+        exc = template(
+            "exc_info()[1]", exc_info=Symbol(sys.exc_info), mode="eval"
+        )
+
+        exc_handler = template(
+            "if pos is not None: rcontext.setdefault('__error__', [])."
+            "append(token + (__filename, exc, ))",
+            exc=exc,
+            token=template("__tokens[pos]", pos="__token", mode="eval"),
+            pos="__token"
+        ) + template("raise")
+
+        return [
+            ast.Try(
+                body=nodes,
+                handlers=[ast.ExceptHandler(body=exc_handler)],
+                finalbody=[],
+                orelse=[],
+            )
+        ]
+
     def visit_Macro(self, node):
         body = []
 
@@ -1210,27 +1234,8 @@ class Compiler:
                 "except: NAME = None",
                 KEY=ast.Constant(name), NAME=store(name))
 
-        exc = template(
-            "exc_info()[1]", exc_info=Symbol(sys.exc_info), mode="eval"
-        )
-
-        exc_handler = template(
-            "if pos is not None: rcontext.setdefault('__error__', [])."
-            "append(token + (__filename, exc, ))",
-            exc=exc,
-            token=template("__tokens[pos]", pos="__token", mode="eval"),
-            pos="__token"
-        ) + template("raise")
-
         # Wrap visited nodes in try-except error handler.
-        body += [
-            ast.Try(
-                body=nodes,
-                handlers=[ast.ExceptHandler(body=exc_handler)],
-                finalbody=[],
-                orelse=[],
-            )
-        ]
+        body += self._wrap_in_error_handler(nodes)
 
         function_name = "render" if node.name is None else \
                         "render_%s" % mangle(node.name)
@@ -1696,7 +1701,7 @@ class Compiler:
 
         # Note that global definitions made by the slot filler must
         # reach the remainder of the macro (as after a macro call).
-        orelse = template(
+        orelse = template("__token = None") + template(
             "SLOT(__stream, econtext.copy(), rcontext)",
             SLOT=name) + \
             template("econtext.update(rcontext)")
@@ -1758,7 +1763,12 @@ class Compiler:
 
             self._current_slot.append(slot.name)
 
-            body = self.visit_Context(slot)
+            # The slot filler is a function of its own: it keeps track
+            # of the expression being evaluated like a macro does.
+            body = template("__token = None") + \
+                self._wrap_in_error_handler(
+                    self.visit_Context(slot) or [ast.Pass()]
+                )
 
             assert self._current_slot.pop() == slot.name
 
